@@ -73,6 +73,30 @@ def rule_R1(ck):
         if prio != "critical" and raised is not None:
             ck.violation(where, f"a {prio} diagnostic raises {raised}", construct=f"{prio} raises")
 
+    # the latch is sticky: it depends on whether ANY error was reported, not on what was reported last
+    for seq in (("error", "warning"), ("warning", "error"), ("error", "warning", "warning"), ("warning", "warning"), ("error", "error")):
+        def thunk_s(seq=seq):
+            HR = I.module_get("reports", "handle_reports")
+            h = I.instantiate(HR, [PyFn(lambda I_, a, k: None, "handler")], {})
+            I.call_method(h, "__enter__", [])
+            try:
+                for prio in seq:
+                    I.call(I.module_get("reports", prio), ["some-id", (sym.var("s", "obj"), sym.var("e", "obj"), "text")], {})
+            finally:
+                stack = I.module_get("reports", "handle_reports").attrs["handlers_stack"]
+                if stack and stack[-1] is h:
+                    stack.pop()
+            return h.fields["is_error_condition"]
+        ps = I.explore(thunk_s)
+        where = "reports::emit_report"
+        want = "error" in seq
+        ck.instance(("latch-sequence", seq), {"diagnostics in order": list(seq), "latched afterwards": repr(ps[0].value) if ps and ps[0].kind == "return" else repr(ps)}, fn=where)
+        if len(ps) != 1 or ps[0].kind != "return":
+            ck.incomplete(where, f"emitting {list(seq)} in one report scope", ps)
+        elif ps[0].value is not want:
+            ck.violation(where, f"after the diagnostics {list(seq)} the error condition is {ps[0].value!r}, expected {want}: a run fails iff at least one error was issued, whatever was issued after it",
+                         construct="latch is sticky")
+
 
 def rule_R2(ck):
     repo = ck.repo
